@@ -33,18 +33,33 @@ def opt_real(name):
     return Opt(z3.Bool(name + "_is_none"), z3.Real(name))
 
 
+def O(x):
+    """normalise an Optional[float] argument: callers may pass an Opt, None, or a value known not to be None"""
+    if isinstance(x, Opt):
+        return x
+    if x is NONE:
+        return Opt(z3.BoolVal(True), z3.RealVal(0))
+    from fractions import Fraction
+    if isinstance(x, (int, Fraction)):
+        return Opt(z3.BoolVal(False), z3.RealVal(str(Fraction(x))))
+    return Opt(z3.BoolVal(False), x)
+
+
 def rho_of(rt: Opt):
+    rt = O(rt)
     return z3.If(rt.is_none, z3.RealVal(RHO_DEFAULT), rt.val)
 
 
 def numbers_ok(l, r, rt: Opt, at: Opt):
     """strongest postcondition of approx_equal_numbers (spec function)"""
+    rt, at = O(rt), O(at)
     rho = rho_of(rt)
     alpha = z3.If(at.is_none, A(l * rho), at.val)
     return A(l - r) <= MX(rho * A(r), alpha)
 
 
 def tol_pre(rt: Opt, at: Opt):
+    rt, at = O(rt), O(at)
     return [z3.Or(rt.is_none, rt.val >= 0), z3.Or(at.is_none, at.val >= 0)]
 
 
@@ -84,9 +99,18 @@ def gate_ok(ls, ld, rs, rd):
 def gate_contract(ex, ctx, args, kw):
     """assert_equivalent_dimension(arg: Quantity, name, fn, expected: Quantity) -- callee contract (C04)"""
     q, _, _, e = args
-    ok = gate_ok(q.fields["scale_factor"], q.fields["dimension"], e.fields["scale_factor"], e.fields["dimension"])
+    if isinstance(e, Opt):
+        e = ex.unopt(e, ctx, "gate-argument")
+    if z3.is_expr(e) and e.sort() == M.Dim:
+        # expected given as a Dimension object (contract C04, Dimension form: no zero/wildcard escape on the expected side)
+        ed = e
+        ok = z3.Or(M.v_is_any(q.fields["scale_factor"]), M.d_anycls(q.fields["dimension"]),
+                   M.d_equiv(M.d_erase_angle(q.fields["dimension"]), M.d_erase_angle(ed)))
+    else:
+        ed = e.fields["dimension"]
+        ok = gate_ok(q.fields["scale_factor"], q.fields["dimension"], e.fields["scale_factor"], ed)
     typ = z3.And(M.d_is_dimensionless(M.d_erase_angle(q.fields["dimension"])),
-                 z3.Not(M.d_is_dimensionless(M.d_erase_angle(e.fields["dimension"]))))
+                 z3.Not(M.d_is_dimensionless(M.d_erase_angle(ed))))
     res = []
     for cond, val in ((ok, NONE), (z3.And(z3.Not(ok), typ), ExcVal("TypeError")), (z3.And(z3.Not(ok), z3.Not(typ)), ExcVal("UnitsError"))):
         if ex.feasible(ctx, cond):
@@ -329,7 +353,11 @@ def obligations():
     verify_function(ex, "assert_equal_vectors", setup, post)
     execs.append(ex)
 
+    from ..contracts import refimpl
+    from ..core import seed as _seed
+    conc_default = refimpl.concretizer("approx", _seed())
     for ex in execs:
+        ex.obligations = [(n, h, g_, s_, c_ or conc_default) for n, h, g_, s_, c_ in ex.obligations]
         obs.extend(discharge(ex, "C08"))
 
     # ---------------- lemmas over the contracts: the clauses of the property statement
@@ -362,6 +390,16 @@ def obligations():
 
 
 def run(report):
+    from ..pyvc import GenError as _GenError
+    from ..contracts import refimpl as _refimpl
+    from ..core import seed as _seed
+    try:
+        _run(report)
+    except (_GenError, NotImplementedError, KeyError, AttributeError, TypeError) as e:
+        _refimpl.generation_fallback(report, "approx", "C08", f"{type(e).__name__}: {e}", _seed())
+
+
+def _run(report):
     execs, obs = obligations()
     report.extend(obs)
     src = PKG / "core/approx.py"
